@@ -712,7 +712,7 @@ Lemma Inv_step K st stale e :
   Inv (fst (sstep ev (K, st) e)) (snd (sstep ev (K, st) e))
       (if requests_resync ev st e then false else stale || first_node_event st K e).
 Proof.
-  intros He [B Hnd Hok D Hn NFh]. destruct e as [name [s|]|c|n|l|]; cbn [sstep requests_resync first_node_event esvc_ok fst snd] in *.
+  intros He [B Hnd Hok D Hn NFh]. destruct e as [name [s|]|c|n|l| |dn]; cbn [sstep requests_resync first_node_event esvc_ok fst snd] in *.
   - (* service add / update *)
     rewrite orb_false_r. destruct (set_balancer_spec name (Some s) st B) as [B1 [F1 N1]]; [intros s' [= <-]; exact He|].
     apply frame_frameS in F1. constructor; auto.
@@ -763,6 +763,8 @@ Proof.
     + destruct B as [K1 K2 K3 K3' K4 K5 K6]. constructor; sp; auto.
   - (* re-sync *)
     apply Inv_resync; auto.
+  - (* node object deleted: the speaker does not hear of it *)
+    rewrite orb_false_r. constructor; auto.
 Qed.
 
 Lemma sinit_Bk spk : Bk (sinit spk).
@@ -826,7 +828,7 @@ Lemma fresh_spec K st stale :
   Bk (fresh ev st K) /\ NF K (fresh ev st K) /\
   s_cfg (fresh ev st K) = s_cfg st /\ s_nodes (fresh ev st K) = s_nodes st /\ s_spk (fresh ev st K) = s_spk st.
 Proof.
-  intros [B Hnd Hok D Hn _]. unfold fresh.
+  intros [B Hnd Hok D Hn _]. unfold fresh, fresh_of.
   destruct (fold_set_node (s_nodes st) (sinit (s_spk st)) (sinit_Bk _)) as [B1 [P1 [C1 [C3 [C4 C2]]]]]. cbv zeta in *.
   set (st1 := fold_left (fun a n => fst (set_node ev n a)) (s_nodes st) (sinit (s_spk st))) in *.
   assert (C2' : s_nodes st1 = s_nodes st).
@@ -964,6 +966,54 @@ Proof.
   - apply final_cfg_good. exact Hf.
 Qed.
 
+(* ---------------------------------------------------------------- against the CLUSTER's final state *)
+Lemma sstep_spk K st stale e a :
+  esvc_ok e = true -> Inv K st stale -> s_spk st = api_spk a ->
+  s_spk (snd (sstep ev (K, st) e)) = api_spk (api_step a e).
+Proof.
+  intros He [B Hnd Hok D Hn _] Hs.
+  assert (Hre : forall st0, Bk st0 -> s_spk (resync ev K st0) = s_spk st0).
+  { intros st0 B0. destruct (resync_spec K st0 B0 Hok) as [_ [[_ [_ [F3 _]]] _]]. exact F3. }
+  destruct e as [name [s|]|c|n|l| |dn]; cbn [sstep api_step esvc_ok fst snd api_spk] in *.
+  - destruct (set_balancer_spec name (Some s) st B) as [_ [[_ [_ [F3 _]]] _]]; [intros s' [= <-]; exact He|]. congruence.
+  - destruct (set_balancer_spec name None st B) as [_ [[_ [_ [F3 _]]] _]]; [discriminate|]. congruence.
+  - destruct (set_config_spec c st B) as [S1 S2]. destruct (set_config ev c st) as [st' ok] eqn:Ec. cbn [fst snd] in *.
+    destruct ok.
+    + destruct (S2 eq_refl) as [B1 [_ [_ [_ [C3 _]]]]]. rewrite (Hre st' B1). congruence.
+    + rewrite (S1 eq_refl). exact Hs.
+  - destruct (set_node_spec n st B) as [B1 [_ [_ [_ [C3 _]]]]]. unfold set_node in *. cbn [fst snd] in *.
+    destruct (match find_node (nd_id n) (s_nodes st) with Some old => _ | None => false end); [rewrite (Hre _ B1)|]; congruence.
+  - rewrite Hre; [reflexivity|]. destruct B as [K1 K2 K3 K3' K4 K5 K6]. constructor; sp; auto.
+  - rewrite (Hre st B). exact Hs.
+  - exact Hs.
+Qed.
+
+Lemma run_spk h : forall ws a stale,
+  forallb esvc_ok h = true -> Inv (fst ws) (snd ws) stale -> s_spk (snd ws) = api_spk a ->
+  s_spk (snd (fold_left (sstep ev) h ws)) = api_spk (fold_left api_step h a).
+Proof.
+  induction h as [|e h IH]; intros [K st] a stale Hok V Hs; cbn [fold_left]; [exact Hs|].
+  cbn [forallb] in Hok. apply andb_true_iff in Hok. destruct Hok as [He Hh]. cbn [fst snd] in *.
+  eapply IH; [exact Hh| |].
+  - apply (Inv_step K st stale e He V).
+  - apply (sstep_spk K st stale e a He V Hs).
+Qed.
+
+(* the statement against what the API server holds at the end: additionally the speaker must be in sync
+   with it (no refused configuration pending, no remembered node deleted) *)
+Lemma history_independent_cluster spk h :
+  forallb esvc_ok h = true ->
+  final_cfg_ok ev (snd (srun ev spk h)) = true ->
+  stale_after ev ([], sinit spk) false h = false ->
+  in_sync (api_run spk h) (snd (srun ev spk h)) ->
+  announced_equiv (snd (srun ev spk h)) (fresh_cluster ev (api_run spk h) (fst (srun ev spk h))).
+Proof.
+  intros Hok Hf Hst [Hc Hn].
+  assert (Hs : s_spk (snd (srun ev spk h)) = api_spk (api_run spk h)).
+  { unfold srun, api_run. apply (run_spk h ([], sinit spk) _ false Hok (Inv_init spk)). reflexivity. }
+  unfold fresh_cluster. rewrite <- Hc, <- Hn, <- Hs. apply history_independent; assumption.
+Qed.
+
 (* any reachable state: a full re-sync brings the speaker to the fresh speaker's announcements *)
 Lemma resync_normal_form_run spk h :
   forallb esvc_ok h = true ->
@@ -1096,10 +1146,37 @@ Proof.
   apply (l2_announced_state _ _ name (v_bk _ _ _ V) (v_nf _ _ _ V eq_refl) (final_cfg_good _ Hf)).
 Qed.
 
-(* SetConfig refusal: a configuration that orphans a recorded address changes nothing *)
+(* SetConfig refusal: a configuration that orphans a recorded address changes nothing
+   (true by unfolding set_config; the content is in setconfig_refused_iff) *)
 Lemma setconfig_refusal c st :
   snd (set_config ev c st) = false -> fst (set_config ev c st) = st.
 Proof. unfold set_config. destruct (existsb _ _); cbn; [reflexivity|discriminate]. Qed.
+
+(* WHEN a configuration is refused: some Service with recorded addresses has no pool under it *)
+Lemma setconfig_refused_iff c st :
+  snd (set_config ev c st) = false <->
+  exists name ips, In name (s_ipkeys st) /\ s_ips st name = Some ips /\ pool_for c ips = None.
+Proof.
+  unfold set_config. destruct (existsb _ (s_ipkeys st)) eqn:E; cbn [snd].
+  - split; [intros _|reflexivity]. apply existsb_exists in E. destruct E as [name [Hin H]].
+    destruct (s_ips st name) as [ips|] eqn:Ei; [|discriminate]. exists name, ips. split; [exact Hin|]. split; [exact Ei|].
+    destruct (pool_for c ips); [discriminate|reflexivity].
+  - split; [discriminate|]. intros [name [ips [Hin [Hi Hp]]]]. exfalso.
+    assert (X : existsb (fun name0 => match s_ips st name0 with
+                                      | Some ips0 => match pool_for c ips0 with None => true | Some _ => false end
+                                      | None => false end) (s_ipkeys st) = true).
+    { apply existsb_exists. exists name. split; [exact Hin|]. rewrite Hi, Hp. reflexivity. }
+    congruence.
+Qed.
+(* recorded addresses exist exactly for the Services announced by some protocol (invariant Bk) *)
+Lemma recorded_iff_announced st name :
+  Bk st -> (s_ips st name <> None <-> s_annb st name = true \/ s_annl st name = true).
+Proof.
+  intros B. split.
+  - intros H. destruct (s_annb st name) eqn:Eb; [left; reflexivity|]. destruct (s_annl st name) eqn:El; [right; reflexivity|].
+    exfalso. apply H. apply (k_some _ B name Eb El).
+  - intros H Hn. destruct (k_none _ B name Hn) as [A1 A2]. destruct H; congruence.
+Qed.
 
 End S.
 
